@@ -118,10 +118,15 @@ var reAnnot = regexp.MustCompile(`\((p[0-9]+):[^()]*\)`)
 const pkgInfos = `
 package_info extone =
   type Handle
+  type Token
+  type Box<T>
   let Open: string->Handle
   let Size: Handle->int
   let Name: Handle->string
   let Join<T>: []T->string->string
+  let MkToken: string->Token
+  let TokLen: Token->int
+  let Unbox<T>: Box<T>->T
 
 package_info exttwo =
   let Alpha: int->int
@@ -143,6 +148,12 @@ let useExt (n:int) (s:string) =
   let (c, d) = exttwo.Gamma a b
   let e = localThree d |> slice.Map (localTwo s)
   extone.Join e (localTwo b c)
+
+let useTypes (t:extone.Token) (h:extone.Handle) (b:extone.Box<int>) =
+  extone.TokLen t + extone.Size h + extone.Unbox b
+
+let mkTok (s:string) : extone.Token =
+  extone.MkToken s
 
 let inferMany a b c d e f =
   let p = (a, b)
@@ -206,6 +217,9 @@ func genCase(rt *rapid.T) (Case, []string) {
 	orders = append(orders, fmt.Sprintf("rotate:%d", rapid.IntRange(1, 5).Draw(rt, "rot")))
 	for i := 0; i < 3; i++ {
 		orders = append(orders, fmt.Sprintf("shuffle:%d", rapid.Uint64Range(1, 1<<40).Draw(rt, "shuffleSeed")))
+	}
+	for i := 0; i < 2; i++ {
+		orders = append(orders, fmt.Sprintf("indep:%d", rapid.Uint64Range(1, 1<<40).Draw(rt, "indepSeed")))
 	}
 	return Case{Src: src, Orders: orders}, labels
 }
